@@ -7,15 +7,14 @@ from wal.ast_defs import Operator as Op
 from wal.reader import operators
 
 WAWK_GRAMMAR = r"""
-    ?expr: symbol
+    ?expr: or_s
+
+    ?atom: symbol
          | fcall
          | array_get
          | "(" expr ")"
          | string
          | list
-         | neg
-         | sum_s
-         | or_s
          | SIGNED_INT -> number
          | INT -> number
 
@@ -49,20 +48,20 @@ WAWK_GRAMMAR = r"""
     bit_symbol : simple_symbol "[" INT "]"
     sliced_symbol : simple_symbol "[" INT ":" INT "]"
 
-    neg.6 : a_neg | expr
-    a_neg.6 : u_op expr
+    neg: a_neg | atom
+    a_neg: u_op neg
 
-    sum_s.5: a_sum_s | mul
-    a_sum_s.5: sum_s a_s_op sum_s
-    mul.4: a_mul | expr
-    a_mul.4: mul m_d_op mul
+    mul: a_mul | neg
+    a_mul: mul m_d_op neg
+    sum_s: a_sum_s | mul
+    a_sum_s: sum_s a_s_op mul
 
-    or_s.3: a_or_s | and_s
-    a_or_s.3: or_s or_op or_s
-    and_s.2: a_and_s | comp
-    a_and_s.2: and_s and_op and_s
-    comp.1: a_comp | expr
-    a_comp.1: and_s comp_op and_s
+    comp: a_comp | sum_s
+    a_comp: sum_s comp_op sum_s
+    and_s: a_and_s | comp
+    a_and_s: and_s and_op comp
+    or_s: a_or_s | and_s
+    a_or_s: or_s or_op and_s
 
     !u_op : "!"
     !m_d_op : "*" | "/"
